@@ -151,8 +151,11 @@ def elem_of(I, st, itv):
     return vfield(v, "[*]")
 
 
-def mk_iter(elem):
-    return Val(frozenset(), {"[*]": elem, "#iter": V("Const(iter)")})
+def mk_iter(elem, src=None):
+    f = {"[*]": elem, "#iter": V("Const(iter)")}
+    if src is not None and "#uniq" in src.fields:
+        f["#uniq"] = src.fields["#uniq"]     # elements of a de-duplicated collection stay distinct
+    return Val(frozenset(), f)
 
 
 def tag_map(v, src_adt, dst_adt, mapping):
@@ -421,7 +424,7 @@ def iterators(I, st, frame, t, name, self_ty, tys, trait, method, args, ev):
     site = (frame.body.id, ev.bb if ev else -3, 4)
     is_iter_ctx = ("Iterator" in name or "iter" in name.lower() or "IntoIter" in name)
     if method in ("iter", "iter_mut") and len(args) == 1:
-        return mk_iter(elem_of(I, st, a0))
+        return mk_iter(elem_of(I, st, a0), D(a0))
     if method in ("splitn", "split", "rsplit", "rsplitn", "split_terminator", "lines", "split_whitespace", "char_indices") \
             and "str" in name:
         return mk_iter(I.derive(st, [D(a0)], "split"))
@@ -433,10 +436,10 @@ def iterators(I, st, frame, t, name, self_ty, tys, trait, method, args, ev):
         if a0.fields.get("#iter") is not None:
             return a0
         if I.refs_of(a0):
-            return mk_iter(elem_of(I, st, a0))
+            return mk_iter(elem_of(I, st, a0), D(a0))
         if "[*]" not in a0.fields and ("start" in a0.fields or "end" in a0.fields):
             return mk_iter(I.derive(st, [a0], "range"))
-        return mk_iter(vfield(a0, "[*]"))
+        return mk_iter(vfield(a0, "[*]"), a0)
     if not is_iter_ctx:
         return NotImplemented
     if method == "next" or method == "next_back" or method == "last" or method == "nth":
@@ -516,8 +519,13 @@ def iterators(I, st, frame, t, name, self_ty, tys, trait, method, args, ev):
         dst = ev.extra.get("targs", []) if ev else []
         dty = dst[-1] if dst else ""
         if "HashMap" in dty or "BTreeMap" in dty:
-            return Val(frozenset(), {"[k]": vfield(el, "0"), "[*]": vfield(el, "1")})
-        return Val(frozenset(), {"[*]": without_tags(el)})
+            return Val(frozenset(), {"[k]": vfield(el, "0"), "[*]": vfield(el, "1"), "#uniq": V("Const(map keys)")})
+        out = {"[*]": without_tags(el)}
+        if "HashSet" in dty or "BTreeSet" in dty:
+            out["#uniq"] = V("Const(set)")
+        elif "#uniq" in itv.fields:
+            out["#uniq"] = itv.fields["#uniq"]
+        return Val(frozenset(), out)
     if method in ("sum", "product"):
         return I.derive(st, [D(vfield(itv, "[*]"))], "add" if method == "sum" else "mul")
     if method in ("count",):
